@@ -453,6 +453,15 @@ where
             "glwe secret distribution is NONE (have you prepared the key?)"
         );
 
+        // The plaintext limbs are added to the body as they are: they must be in the ciphertext's radix.
+        if let Some((pt, _)) = pt {
+            let pt_base2k: usize = pt.to_ref().base2k().into();
+            assert_eq!(
+                pt_base2k, base2k,
+                "plaintext base2k: {pt_base2k} != ciphertext base2k: {base2k}"
+            );
+        }
+
         let size: usize = ct.size();
 
         let (mut c0, scratch_1) = scratch.take_vec_znx(self.n(), 1, size);
